@@ -150,6 +150,13 @@ func renderPreformatted(ctx VueContext, w io.Writer, node *html.Node) error {
 		keep := node.Data != "template" || helpers.HasAttr(node, "v-keep")
 		if keep {
 			_, _ = w.Write([]byte("<" + node.Data + renderAttrs(helpers.FilterAttrs(node.Attr, "v-keep")) + ">"))
+			// a <pre> or <textarea> met here (inside another <pre>, or in a line of inline content):
+			// the parser drops one newline right after their start tag, so a content that itself
+			// starts with a newline needs it written twice
+			if (node.Data == "pre" || node.Data == "textarea") && node.Namespace == "" && !evaluated &&
+				node.FirstChild != nil && node.FirstChild.Type == html.TextNode && strings.HasPrefix(node.FirstChild.Data, "\n") {
+				_, _ = w.Write([]byte("\n"))
+			}
 		}
 		if evaluated {
 			_, _ = w.Write([]byte(content))
